@@ -19,12 +19,17 @@ import objtypes    # noqa: E402
 TABLE = 'T'
 DATA, REF, LOOKUP = 'D', 'R', '#lookup#'
 FCOLS = ['A', 'B', 'C', 'F', 'G', 'H']
-COLID = {DATA: 1, REF: 2, LOOKUP: 3}
+KEYF = 'K'                                  # a formula column used only as a lookup key (lookup-free, reads $D)
+KEYCOLS = [DATA, KEYF]
+IDX = {k: '#lookup#' + k for k in KEYCOLS}   # the engine's index (LookupMapColumn) node of a key column
+COLID = {DATA: 1, REF: 2, LOOKUP: 3, IDX[DATA]: 4, IDX[KEYF]: 5, KEYF: 9}
 COLID.update({c: 10 + i for i, c in enumerate(FCOLS)})
 ERRCODE = {'ZeroDivisionError': 1}
 
 # ---- formula grammar ------------------------------------------------------------------------------------
 # ('c', n) | ('col', X) | ('ref', X)  [= $R.X] | ('add', a, b) | ('if', c, a, b) | ('div0',) | ('try', a, n) (top level)
+# | ('tryo', a, n) (top level): catches every error except CircularRefError, which it re-raises
+# | ('cnt', K, e) len(T.lookupRecords(K=e)) | ('one', K, e) T.lookupOne(K=e).id | ('lsum', K, e, X) sum(r.X for r in ...)
 
 
 def py_expr(a):
@@ -41,12 +46,21 @@ def py_expr(a):
     return '(%s if %s > 0 else %s)' % (py_expr(a[2]), py_expr(a[1]), py_expr(a[3]))
   if k == 'div0':
     return '(1/0)'
+  if k == 'cnt':
+    return 'len(%s.lookupRecords(%s=%s))' % (TABLE, a[1], py_expr(a[2]))
+  if k == 'one':
+    return '%s.lookupOne(%s=%s).id' % (TABLE, a[1], py_expr(a[2]))
+  if k == 'lsum':
+    return 'sum(r.%s for r in %s.lookupRecords(%s=%s))' % (a[3], TABLE, a[1], py_expr(a[2]))
   raise ValueError(a)
 
 
 def py_formula(a):
   if a[0] == 'try':
     return 'try:\n  return %s\nexcept Exception:\n  return %d' % (py_expr(a[1]), a[2])
+  if a[0] == 'tryo':
+    return ('try:\n  return %s\nexcept Exception as e:\n  if type(e).__name__ == "CircularRefError":\n    raise\n'
+            '  return %d' % (py_expr(a[1]), a[2]))
   return py_expr(a)
 
 
@@ -66,6 +80,14 @@ def coq_expr(a):
     return 'EDiv0'
   if k == 'try':
     return '(ETry %s %s)' % (coq_expr(a[1]), core.zlit(a[2]))
+  if k == 'tryo':
+    return '(ETryOther %s %s)' % (coq_expr(a[1]), core.zlit(a[2]))
+  if k == 'cnt':
+    return '(ECount %d %s)' % (COLID[IDX[a[1]]], coq_expr(a[2]))
+  if k == 'one':
+    return '(EOne %d %s)' % (COLID[IDX[a[1]]], coq_expr(a[2]))
+  if k == 'lsum':
+    return '(ESum %d %s %d)' % (COLID[IDX[a[1]]], coq_expr(a[2]), COLID[a[3]])
   raise ValueError(a)
 
 
@@ -74,6 +96,8 @@ def mentions(a):
   k = a[0]
   if k in ('col', 'ref'):
     return {a[1]} if a[1] in FCOLS else set()
+  if k == 'lsum':
+    return ({a[3]} if a[3] in FCOLS else set()) | mentions(a[2])
   out = set()
   for x in a[1:]:
     if isinstance(x, tuple):
@@ -85,12 +109,32 @@ def has_try(a):
   return a[0] == 'try'
 
 
+def uses_key(a, key):
+  return (a[0] in ('cnt', 'one', 'lsum') and a[1] == key) or any(isinstance(x, tuple) and uses_key(x, key) for x in a[1:])
+
+
+def has_lookup(a):
+  return a[0] in ('cnt', 'one', 'lsum') or any(isinstance(x, tuple) and has_lookup(x) for x in a[1:])
+
+
 def has_ref(a):
   return a[0] == 'ref' or any(isinstance(x, tuple) and has_ref(x) for x in a[1:])
 
 
-def gen_expr(rng, cols, depth=2, allow_ref=True, allow_err=True):
-  """A random expression over the formula columns `cols` and the data column."""
+def gen_lookup(rng, cols, keys):
+  key = rng.choice(keys)
+  arg = rng.choice([('col', DATA), ('c', rng.choice([0, 1, 2, 3])), ('add', ('col', DATA), ('c', 1))] +
+                   ([('col', rng.choice(cols))] if cols else []))
+  kind = rng.choice(['cnt', 'one', 'lsum', 'lsum']) if cols else rng.choice(['cnt', 'one'])
+  if kind == 'lsum':
+    return ('lsum', key, arg, rng.choice(cols + [DATA]))
+  return (kind, key, arg)
+
+
+def gen_expr(rng, cols, depth=2, allow_ref=True, allow_err=True, keys=()):
+  """A random expression over the formula columns `cols` and the data column (`keys`: lookup key columns)."""
+  if keys and rng.random() < 0.3:
+    return gen_lookup(rng, cols, list(keys))
   r = rng.random()
   if depth <= 0 or r < 0.45:
     r2 = rng.random()
@@ -104,18 +148,28 @@ def gen_expr(rng, cols, depth=2, allow_ref=True, allow_err=True):
       return ('div0',)
     return ('c', rng.choice([0, 1, 2, 5, -1]))
   if r < 0.8:
-    return ('add', gen_expr(rng, cols, depth - 1, allow_ref, allow_err), gen_expr(rng, cols, depth - 1, allow_ref, allow_err))
-  return ('if', gen_expr(rng, cols, depth - 1, allow_ref, allow_err), gen_expr(rng, cols, depth - 1, allow_ref, allow_err),
-          gen_expr(rng, cols, depth - 1, allow_ref, allow_err))
+    return ('add', gen_expr(rng, cols, depth - 1, allow_ref, allow_err, keys),
+            gen_expr(rng, cols, depth - 1, allow_ref, allow_err, keys))
+  return ('if', gen_expr(rng, cols, depth - 1, allow_ref, allow_err, keys),
+          gen_expr(rng, cols, depth - 1, allow_ref, allow_err, keys),
+          gen_expr(rng, cols, depth - 1, allow_ref, allow_err, keys))
 
 
-def gen_program(rng, ncols=None, p_try=0.0, allow_ref=True):
-  """{col: ast} over 1..5 formula columns; cycles are allowed (any column may mention any column)."""
+def gen_program(rng, ncols=None, p_try=0.0, allow_ref=True, p_tryo=0.0, p_lookup=0.0):
+  """{col: ast} over 1..5 formula columns; cycles are allowed (any column may mention any column).  With
+  probability p_lookup the document uses lookups: keyed on the data column or on the extra formula column K, whose
+  own formula reads only $D (so no column is the key of its own lookup: that is the known C18 finding)."""
   n = ncols or rng.choice([1, 2, 2, 3, 3, 4, 5])
   cols = FCOLS[:n]
   prog = collections.OrderedDict()
+  keys = ()
+  if rng.random() < p_lookup:
+    keys = rng.choice([(DATA,), (DATA, KEYF), (KEYF,)])
+    if KEYF in keys:
+      prog[KEYF] = rng.choice([('add', ('col', DATA), ('c', 1)), ('if', ('col', DATA), ('col', DATA), ('c', 0)),
+                               ('add', ('col', DATA), ('col', DATA))])
   for c in cols:
-    a = gen_expr(rng, cols, depth=rng.choice([0, 1, 1, 2]), allow_ref=allow_ref)
+    a = gen_expr(rng, cols, depth=rng.choice([0, 1, 1, 2]), allow_ref=allow_ref, keys=keys)
     if allow_ref and rng.random() < 0.3:
       # a row chain: the column refers to itself (or another column) in ANOTHER row, guarded by the data column, so
       # whether there is a cycle depends on the data (locked cells meet opportunistic evaluation of their own column)
@@ -123,6 +177,8 @@ def gen_program(rng, ncols=None, p_try=0.0, allow_ref=True):
            rng.choice([('c', 0), ('col', DATA), a]))
     if rng.random() < p_try:
       a = ('try', a, rng.choice([7, 0, -3]))
+    elif rng.random() < p_tryo:
+      a = ('tryo', a, rng.choice([7, 0, -3]))
     prog[c] = a
   return prog
 
@@ -154,10 +210,12 @@ def gen_edit(rng, e, prog):
   if r < 0.55 and rows:
     return [['UpdateRecord', TABLE, rng.choice(rows), {REF: rng.choice(rows)}]]
   if r < 0.8:
-    c = rng.choice(list(prog))
-    a = gen_expr(rng, list(prog), depth=rng.choice([0, 1, 2]))
-    if has_try(prog[c]):
-      a = ('try', a, 7)
+    fcols = [x for x in prog if x != KEYF]
+    c = rng.choice(fcols)
+    keys = tuple(k for k in KEYCOLS if any(uses_key(x, k) for x in prog.values()))
+    a = gen_expr(rng, fcols, depth=rng.choice([0, 1, 2]), keys=keys)
+    if prog[c][0] in ('try', 'tryo'):
+      a = (prog[c][0], a, 7)
     prog[c] = a
     return [['ModifyColumn', TABLE, c, {'formula': py_formula(a)}]]
   if r < 0.9 or len(rows) <= 1:
@@ -205,6 +263,35 @@ def dirty_cells(e):
   return out
 
 
+def raw_dirty(e):
+  """recompute_map of TABLE as a set of cells, ALL_ROWS expanded, rows already done NOT removed."""
+  out = set()
+  if TABLE not in e.tables:
+    return out
+  t = e.tables[TABLE]
+  for node, rows in e.recompute_map.items():
+    if node.table_id == TABLE:
+      for r in (t.row_ids if rows == depend.ALL_ROWS else rows):
+        if r in t.row_ids:
+          out.add((node.col_id, r))
+  return out
+
+
+def index_values(e):
+  """{(index col, row): key} for the lookup index nodes of TABLE that the model knows (single-column keys)."""
+  out = {}
+  t = e.tables[TABLE]
+  for cid, col in getattr(t, '_special_cols', {}).items():
+    if cid in COLID and cid != LOOKUP and hasattr(col, '_mapping'):
+      for r in sorted(t.row_ids):
+        try:
+          key = col._mapping._get_mapped_key(r)
+        except Exception:
+          key = None
+        out[(cid, r)] = key[0] if isinstance(key, tuple) and len(key) == 1 else None
+  return out
+
+
 def attach(e, priority=None):
   """
   Record every update loop of engine `e` (instance-level wrappers; /repo is not touched).
@@ -233,6 +320,7 @@ def attach(e, priority=None):
       col = t.get_column(c)
       for r in sorted(t.row_ids):
         lp.vals0[(c, r)] = col.raw_get(r)
+    lp.vals0.update(index_values(e))
     for node in e.recompute_map:
       if node.table_id == TABLE and node.col_id not in COLID:
         lp.bad = 'node %s outside the modelled columns' % (node,)
@@ -286,16 +374,28 @@ def attach(e, priority=None):
     cur = st['step'][-1]
     required = cur['rows'] is None or (row_id in cur['rows'] and row_id not in cur['seen'])
     cur['seen'].add(row_id)
+    before = raw_dirty(e)
+    def invalidated():
+      # cells that became dirty while this cell was evaluated (lookup index found a changed key, or a new index
+      # node was created): reported BEFORE the cell's own event; rows already done in this loop are included
+      # (the engine would silently drop them: the model's replay rejects such a lost invalidation)
+      new = sorted(raw_dirty(e) - before)
+      if any(c[0] not in COLID for c in new):
+        lp.bad = 'invalidation of a node outside the modelled columns'
+      if new:
+        lp.events.append(('inval', new))
     try:
       res = o_cell(table, col, row_id, cycle=cycle, node=node, record_attributes=record_attributes)
     except E.OrderError as x:
-      if x.node.table_id != TABLE:
-        lp.bad = 'OrderError for a node outside the table'
+      if x.node.table_id != TABLE or x.node.col_id not in COLID:
+        lp.bad = 'OrderError for a node outside the modelled columns'
+      invalidated()
       lp.events.append(('cell', col.col_id, row_id, required, bool(cycle), ('order', x.node.col_id, x.row_id)))
       raise
     except BaseException as x:
       lp.bad = 'cell raised %r' % (x,)
       raise
+    invalidated()
     lp.events.append(('cell', col.col_id, row_id, required, bool(cycle), ('ret', res)))
     return res
 
@@ -366,6 +466,9 @@ def to_items(lp):
     if ev[0] == 'step':
       cur = ev[2]
       items.append(('S', ev[3], ev[4]))
+    elif ev[0] == 'inval':
+      items.append(('I', ev[1]))
+      stats['invalidated'] += len(ev[1])
     elif ev[0] == 'cell':
       _, col, row, required, cycle, out = ev
       c = (col, row)
@@ -410,6 +513,10 @@ def coq_case(lp, prog):
     if c == LOOKUP:
       continue
     mv = model_value(raw)
+    if c in IDX.values() and raw is None:
+      if (c, r) not in dirty0:
+        return None, 'clean index cell %s[%d] has no key' % (c, r)
+      mv = ('int', 0)
     if mv is None:
       if (c, r) in dirty0:
         mv = ('int', 0)
@@ -429,9 +536,13 @@ def coq_case(lp, prog):
   for it in items:
     if it[0] == 'L':
       its.append('TL (%s)' % it[1])
+    elif it[0] == 'I':
+      its.append('TI %s' % core.coq_list([coq_cell(c) for c in it[1]]))
     else:
       its.append('TS %s %s' % (core.coq_list([coq_cell(c) for c in it[1]]), core.coq_list([coq_cell(c) for c in it[2]])))
   cols = ['(%d, %s)' % (COLID[c], coq_expr(a)) for c, a in prog.items()] + ['(%d, EConst 0%%Z)' % COLID[LOOKUP]]
+  # the index node of a key column: the cell of row r holds the key of row r (formula: read the key column)
+  cols += ['(%d, (ECol %d))' % (COLID[IDX[k]], COLID[k]) for k in KEYCOLS]
   seen, order = set(), []
   for c in lp.order:
     if c not in seen and c in COLID:
